@@ -230,8 +230,10 @@ theorem W_ok_inv {α : Type} (name : String) (p : Nat) (body : M α) (c : Ctx) (
     (h : W cfg name p body c s = (.ok v, s')) : body c s = (.ok v, s') := by
   unfold W at h
   split at h
-  · exact wrap_ok_inv cfg p body c s s' v h
   · exact h
+  · split at h
+    · exact wrap_ok_inv cfg p body c s s' v h
+    · exact h
 
 theorem memoIf_inactive {α : Type} (b : Bool) (get : Cache → Option α) (set : α → Cache → Cache) (p : Nat)
     (body : M α) (c : Ctx) (s : St) (hc : s.cache.active = false) : memoIf b get set p body c s = body c s := by
